@@ -93,6 +93,34 @@ func copyTree(src, dst string, skipTop map[string]bool) error {
 	})
 }
 
+const overlayModule = "github.com/grindlemire/go-lucene" // the module path the overlay sources are written against
+
+// retargetOverlay rewrites the overlay's import paths when the repository's module
+// path is not the one the overlay was written against (a fork, a v2 suffix).
+func retargetOverlay(scratch string) error {
+	mod, err := instr.ModulePath(scratch)
+	if err != nil || mod == overlayModule {
+		return err
+	}
+	for _, d := range []string{"zsim", "internal/zsimrt", "internal/zsync", "internal/zatomic", "internal/ztime"} {
+		files, _ := filepath.Glob(filepath.Join(scratch, d, "*.go"))
+		for _, f := range files {
+			b, err := os.ReadFile(f)
+			if err != nil {
+				return err
+			}
+			nb := bytes.ReplaceAll(b, []byte(`"`+overlayModule+`/`), []byte(`"`+mod+`/`))
+			nb = bytes.ReplaceAll(nb, []byte(`"`+overlayModule+`"`), []byte(`"`+mod+`"`))
+			if !bytes.Equal(nb, b) {
+				if err := os.WriteFile(f, nb, 0o644); err != nil {
+					return err
+				}
+			}
+		}
+	}
+	return nil
+}
+
 func goBuild(dir, out string, race bool) (string, error) {
 	args := []string{"build", "-o", out}
 	if race {
@@ -124,6 +152,9 @@ func prepare(repo, verifDir string, forcePlain bool) (*prepared, error) {
 	overlay := filepath.Join(verifDir, "sim", "overlay")
 	if err := copyTree(overlay, scratch, map[string]bool{"go.mod": true}); err != nil {
 		return p, fmt.Errorf("copy overlay: %w", err)
+	}
+	if err := retargetOverlay(scratch); err != nil {
+		return p, fmt.Errorf("retarget overlay: %w", err)
 	}
 	if v, err := exec.Command("go", "version").Output(); err == nil {
 		p.Go = strings.TrimSpace(string(v))
@@ -180,6 +211,9 @@ func prepare(repo, verifDir string, forcePlain bool) (*prepared, error) {
 			return p, err
 		}
 		if err := copyTree(overlay, scratch, map[string]bool{"go.mod": true}); err != nil {
+			return p, err
+		}
+		if err := retargetOverlay(scratch); err != nil {
 			return p, err
 		}
 	} else {
